@@ -134,6 +134,87 @@ func buildWith(id string, c config, fuzz bool) string {
 	return bin
 }
 
+// libraryTags lists the custom build tags that the library's own source files are constrained by (`//go:build purego`,
+// `//go:build !noasm` ...): every term of a constraint in a non-test .go file of the library that is not a term the toolchain
+// defines itself (operating systems, architectures, cgo, compilers, release tags, race / msan / asan) and not this
+// machinery's own hook tag. A file that is compiled only under such a tag is part of the library as some users build it.
+func libraryTags() []string {
+	dir := os.Getenv("VERIF_REPO")
+	if dir == "" {
+		dir = "/repo"
+	}
+	known := map[string]bool{"verif": true, "ignore": true, "cgo": true, "gc": true, "gccgo": true, "race": true, "msan": true, "asan": true, "unix": true, "boringcrypto": true, "tools": true}
+	for _, w := range strings.Fields("aix android darwin dragonfly freebsd hurd illumos ios js linux nacl netbsd openbsd plan9 solaris wasip1 windows zos 386 amd64 amd64p32 arm armbe arm64 arm64be loong64 mips mipsle mips64 mips64le mips64p32 mips64p32le ppc ppc64 ppc64le riscv riscv64 s390 s390x sparc sparc64 wasm") {
+		known[w] = true
+	}
+	found := map[string]bool{}
+	filepath.WalkDir(dir, func(path string, d os.DirEntry, err error) error {
+		if err != nil {
+			return nil
+		}
+		if d.IsDir() {
+			if n := d.Name(); n != "." && (strings.HasPrefix(n, ".") || n == "testdata" || n == "vendor") && path != dir {
+				return filepath.SkipDir
+			}
+			return nil
+		}
+		if !strings.HasSuffix(path, ".go") || strings.HasSuffix(path, "_test.go") {
+			return nil
+		}
+		b, err := os.ReadFile(path)
+		if err != nil {
+			return nil
+		}
+		for _, line := range strings.SplitN(string(b), "\n", 40) {
+			line = strings.TrimSpace(line)
+			if strings.HasPrefix(line, "package ") {
+				break
+			}
+			if !strings.HasPrefix(line, "//go:build ") {
+				continue
+			}
+			term := ""
+			for _, ch := range line[len("//go:build "):] + " " {
+				if ch == '_' || ch == '.' || ch >= '0' && ch <= '9' || ch >= 'a' && ch <= 'z' || ch >= 'A' && ch <= 'Z' {
+					term += string(ch)
+					continue
+				}
+				if term != "" && !known[term] && !(strings.HasPrefix(term, "go1.") || strings.HasPrefix(term, "goexperiment.")) {
+					found[term] = true
+				}
+				term = ""
+			}
+		}
+		return nil
+	})
+	var out []string
+	for t := range found {
+		out = append(out, t)
+	}
+	sort.Strings(out)
+	if len(out) > 3 {
+		out = out[:3]
+	}
+	return out
+}
+
+// buildTagged builds the check's test binary with one more build tag (no race detector).
+func buildTagged(id string, c config, tag string) (string, error) {
+	bin := filepath.Join(outRoot, ".build", strings.ToLower(id)+".tag-"+tag+".test")
+	args := []string{"test", "-c", "-tags", "verif," + tag, "-o", bin}
+	if repo := os.Getenv("VERIF_REPO"); repo != "" {
+		args = append(args, "-modfile", filepath.Join(outRoot, "alt.mod")) // (written by the main build just before)
+	}
+	args = append(args, c.pkg)
+	cmd := exec.Command("go", args...)
+	cmd.Dir = root
+	cmd.Env = env()
+	if b, err := cmd.CombinedOutput(); err != nil {
+		return "", fmt.Errorf("%v: %s", err, b)
+	}
+	return bin, nil
+}
+
 // build32 builds the 32-bit variant of the check's test binary (no race detector, no cgo).
 func build32(id string, c config) string {
 	bin := filepath.Join(outRoot, ".build", strings.ToLower(id)+".386.test")
@@ -184,6 +265,9 @@ func runShard(bin, id, tier string, c config, shard, shards int, dir string, tim
 	e := env("VERIF_TIER="+tier, "VERIF_SEED="+strconv.FormatInt(seed(), 10), "VERIF_SHARD="+strconv.Itoa(shard), "VERIF_SHARDS="+strconv.Itoa(shards), "VERIF_OUT="+outPath)
 	if c.race {
 		e = append(e, "GORACE=log_path="+racePrefix+" halt_on_error=0 history_size=3")
+	}
+	if len(label) > 0 && strings.HasPrefix(label[0], "tag-") {
+		e = append(e, "VERIF_BUILD_TAG="+label[0][4:])
 	}
 	cmd.Env = e
 	var buf bytes.Buffer
@@ -343,7 +427,7 @@ func main() {
 	os.RemoveAll(dir)
 	os.MkdirAll(dir, 0o755)
 
-	results := make([]shardResult, shards)
+	results := make([]shardResult, shards, shards+8) // (room for the extra runs below: goroutines hold pointers into it)
 	var wg sync.WaitGroup
 	for i := 0; i < shards; i++ {
 		wg.Add(1)
@@ -357,11 +441,33 @@ func main() {
 		bin32 := build32(id, c)
 		k := int(seed() % int64(shards))
 		results = append(results, shardResult{})
+		slot := &results[shards]
 		wg.Add(1)
 		go func() {
 			defer wg.Done()
-			results[shards] = runShard(bin32, id, tier, c, k, shards, dir, timeout, "386")
+			*slot = runShard(bin32, id, tier, c, k, shards, dir, timeout, "386")
 		}()
+	}
+	// ... and once more under every custom build tag the library's sources are constrained by (none on the unchanged tree)
+	tagged, tagTrouble := []string{}, []string{}
+	if c.arch32 && os.Getenv("VERIF_NO_TAGS") == "" {
+		for _, tag := range libraryTags() {
+			tbin, err := buildTagged(id, c, tag)
+			if err != nil {
+				// the library does not build under its own tag: that is for the library's build to report, not a property violation
+				tagTrouble = append(tagTrouble, fmt.Sprintf("the check does not build with -tags %s: %v", tag, err))
+				continue
+			}
+			tagged = append(tagged, tag)
+			k := int(seed() % int64(shards))
+			results = append(results, shardResult{})
+			slot := &results[len(results)-1]
+			wg.Add(1)
+			go func(tag string) {
+				defer wg.Done()
+				*slot = runShard(tbin, id, tier, c, k, shards, dir, timeout, "tag-"+tag)
+			}(tag)
+		}
 	}
 	wg.Wait()
 
@@ -487,7 +593,11 @@ func main() {
 	cov["samples"] = samples
 	cov["classes"] = classes
 	cov["shards"] = shards
-	if len(results) > shards {
+	if c.arch32 && os.Getenv("VERIF_NO_TAGS") == "" {
+		cov["build_tags"] = map[string]any{"custom_tags_in_the_library_source": tagged, "not_buildable": tagTrouble,
+			"rule": "the share of one shard runs once more under every custom build tag that constrains a non-test source file of the library (at most three; none on the unchanged tree)"}
+	}
+	if c.arch32 && os.Getenv("VERIF_NO_ARCH32") == "" {
 		cov["word_sizes"] = fmt.Sprintf("%d shards as 64-bit processes; the share of shard %d once more as a 32-bit process (GOARCH=386)", shards, int(seed()%int64(shards)))
 	}
 	cov["exhaustive"] = exhaustive && evaluations > 0
@@ -678,9 +788,17 @@ func replay(path string) {
 	if b, err := os.ReadFile(abs); err == nil {
 		var rf struct {
 			Arch string `json:"arch"`
+			Tag  string `json:"build_tag"`
 		}
 		if json.Unmarshal(b, &rf) == nil && rf.Arch == "386" {
 			bin = build32(id, c) // found by the 32-bit shard: replayed by the 32-bit build
+		} else if rf.Tag != "" {
+			// found by the run under one of the library's own build tags: replayed by that build
+			if tbin, err := buildTagged(id, c, rf.Tag); err == nil {
+				bin = tbin
+			} else {
+				fatal2("cannot build the check with -tags %s: %v", rf.Tag, err)
+			}
 		}
 	}
 	cwd := filepath.Join(outRoot, ".build", "out", id, "replay")
